@@ -400,6 +400,8 @@ def run(repo: Repo, rep: Report, tier: str) -> None:
     # ---- the sub-operation's status is looked up in the storage table ---------------------------------------
     from ..delegate import delegate
     rep.rule("status-known", "every storage status the documentation lists is known to the table the sub-operation results are classified with (C28's docs-agreement)")
+    rep.rule("counts-delivered", "the responses that carry the sub-operation counts are sent as response messages whatever the request's Message ID (C20's response-direction / none-not-falsy)")
+    delegate(repo, rep, tier, "C20", ("response-direction", "none-not-falsy"), "counts-delivered", "for a C-GET / C-MOVE request with the legal Message ID 0 every Pending and the final response is encoded as a *request* message: no status, no sub-operation counters and no Failed SOP Instance UID List reach the requestor although all sub-operations are performed")
     delegate(repo, rep, tier, "C28", ("docs-agreement",), "status-known", "a C-STORE sub-operation answered with that status misses the lookup and is counted as failed (and listed as failed) although the instance was stored with a warning")
 
 
